@@ -51,6 +51,24 @@ ReqSimple(a, out, o) ==
          <<"API.simple_key_matches_cert", o.keyMatches>>,
          <<"API.simple_san_count", o.nSans = Len(a.names)>> }
 
+(* CustomExtension: constructor arguments come back from the accessors; not critical unless set *)
+ReqCustomExtApi(a, o) == {
+  <<"API.custom_ext_oid_echo", o.oid = a.oid>>,
+  <<"API.custom_ext_content_echo", o.content = a.content>>,
+  <<"API.custom_ext_not_critical_by_default", ~o.critDefault>>,
+  <<"API.custom_ext_set_criticality", o.critAfter = a.setCrit>> }
+(* the ACME identifier extension (RFC 8737): id-pe-acmeIdentifier, critical, an OCTET STRING holding the 32 octet digest *)
+ReqAcmeExtApi(a, o) == {
+  <<"API.acme_ext_oid", o.oid = <<1, 3, 6, 1, 5, 5, 7, 1, 31>> >>,
+  <<"API.acme_ext_critical", o.crit>>,
+  <<"API.acme_ext_content_is_octet_string_of_digest", o.content = <<4, 32>> \o a.digest>> }
+AlgDebugName(alg) == CASE alg = "rsa-sha256" -> "PKCS_RSA_SHA256" [] alg = "rsa-sha384" -> "PKCS_RSA_SHA384" [] alg = "rsa-sha512" -> "PKCS_RSA_SHA512"
+                       [] alg = "ecdsa-p256-sha256" -> "PKCS_ECDSA_P256_SHA256" [] alg = "ecdsa-p384-sha384" -> "PKCS_ECDSA_P384_SHA384"
+                       [] alg = "ecdsa-p521-sha512" -> "PKCS_ECDSA_P521_SHA512" [] alg = "ed25519" -> "PKCS_ED25519"
+ReqMiscApi(o) == {
+  <<"API.as_remote_iff_remote", o.remoteIsRemote /\ o.localIsNotRemote>>,
+  <<"API.signature_algorithm_debug_names", \A i \in DOMAIN o.algDebug : o.algDebug[i].debug = AlgDebugName(o.algDebug[i].alg)>> }
+
 (* conversions into the pki-types wrappers return the same bytes as the accessors *)
 ReqConversions(o) == { <<"API.into_der_types_eq_accessors", o.certEq /\ o.csrEq /\ o.crlEq>> }
 =============================================================================
